@@ -112,3 +112,15 @@ Theorem c13_magnet_roundtrip_base32 : forall h params,
   read_magnet (magnet_of_b32 h params) = MgOk h.
 Proof. exact magnet_roundtrip_b32. Qed.
 Print Assumptions c13_magnet_roundtrip_base32.
+
+(* The other parameters of a link (Model/Magnet.v magnet_params: name, tracker tiers, web seeds; compared
+   with what tor.ReadMagnet builds on every run): the link for a hash with one tracker u - any string
+   that tracker.New accepts and that contains no '&' - gives that hash, the tracker u in a tier of its
+   own, no web seed and no name. *)
+Theorem c13_magnet_tracker : forall h u,
+  List.length h = 20%nat -> Forall (fun b => b < 256) h -> url_ok u = true -> ~ In 38 u ->
+  let m := magnet_of h (38 :: 116 :: 114 :: 61 :: u) in     (* ... &tr=u *)
+  read_magnet m = MgOk h /\
+  mp_tiers (magnet_params m) = [[u]] /\ mp_webseeds (magnet_params m) = [] /\ mp_name (magnet_params m) = [].
+Proof. exact magnet_with_tracker. Qed.
+Print Assumptions c13_magnet_tracker.
